@@ -343,6 +343,19 @@ def _input_formula(fi_name: str, param: Term, sh: Shapes):
         sh.kind.setdefault(canon(param), 'quant')
 
 
+def _empty_test_body(ctx: Ctx, r: RuleResult, ev: Evaluator):
+    """the empty-domain guard itself: len(domain) = 0, unconditionally"""
+    et = ctx.model.func('hpl.rewrite', 'empty_test', r.rule)
+    d = Sym('expr', 'HplExpression')
+    eo = ev.run(et, {et.params()[0]: d})
+    ok = False
+    if len(eo) == 1 and eo[0].kind == 'return' and not eo[0].guards and isinstance(eo[0].value, New) and eo[0].value.cls == 'HplBinaryOperator':
+        v = eo[0].value
+        a, b = v.get('operand1'), v.get('operand2')
+        ok = v.get('operator') == Const('=') and isinstance(a, New) and a.cls == 'HplFunctionCall' and a.get('function') == Const('len') and a.get('arguments') == TupleT((d,)) and isinstance(b, New) and b.cls == 'HplLiteral' and b.get('value') == Const(0)
+    (r.ok('empty_test(d) = (len(d) = 0) for every domain') if ok else r.fail('empty_test', f'the empty-domain guard is not unconditionally "len(domain) = 0": {[str(o)[:120] for o in eo]} (literal ranges can be empty)', et.where))
+
+
 R1_FUNCS = ('_split_and_not', '_split_and_quantifier', '_and_presplit_transform')
 DIVISIBLE = {'not not': False, 'not or': False, 'not implies': False, 'not exists': False, 'forall and': False}
 
@@ -397,6 +410,7 @@ def R1(ctx: Ctx) -> RuleResult:
             r.ok(f'divisible shape "{shape}" has a transforming branch')
         else:
             r.fail(f'shape:{shape}', f'no branch transforms the divisible shape "{shape}": such conjuncts would be returned unsplit', 'src/hpl/rewrite.py')
+    _empty_test_body(ctx, r, ev)
     # dispatcher coverage
     fi = ctx.model.func('hpl.rewrite', '_and_presplit_transform')
     outs = ev.run(fi, {fi.params()[0]: Sym('phi', 'HplExpression')})
@@ -444,6 +458,10 @@ def R2(ctx: Ctx) -> RuleResult:
                 fin = fb.build(param)
                 # delegated to a sibling with an equivalent argument: IH
                 fn = _fname(leaf)
+                if fn in ('_split_ref_quantifier', '_split_ref_operator') and name == '_refactor_ref_expr':
+                    boolean = any(pol and any((isinstance(x, Attr) and x.name == 'can_be_bool') or (isinstance(x, Op) and x.op == '&' and 'BOOL' in repr(x)) for x in walk(g)) for g, pol in norm_guards(o.guards))
+                    if not boolean:
+                        r.fail(f'{name}:boolean-guard', f'{fn} is entered without having established that the expression can be boolean: the split helpers treat their argument as a formula (and assert a unary operator to be "not"), a numeric expression such as -@B.x reaches them', f'{fi.module.relpath}:{o.lineno}')
                 if fn in R2_IH and leaf.args and leaf.args[-1] == alias:
                     farg = fb.build(leaf.args[0])
                     why = equivalent(fin, farg, fb.atoms, sh)
@@ -477,6 +495,7 @@ def R2(ctx: Ctx) -> RuleResult:
                     r.fail(key + ':absent', f'alias absent but the result is not (input itself, True): {desc}', f'{fi.module.relpath}:{o.lineno}')
                     continue
                 r.ok(f'{name}: {desc}')
+    _empty_test_body(ctx, r, ev)
     # first branch of _refactor_ref_expr: alias absent -> (expr, true())
     fi = ctx.model.func('hpl.rewrite', '_refactor_ref_expr')
     outs = ev.run(fi, {fi.params()[0]: Sym('expr', 'HplExpression'), 'alias': alias})
